@@ -1,9 +1,10 @@
 // cc: harness for the compile families (C11 CompilePipeline, C15 PrefixScope).
 //
-//	cc run -in cases.ndjson -out res.ndjson [-k K] [-workers N] [-timeout S]
+//	cc run -in cases.ndjson -out res.ndjson [-k K] [-workers N] [-timeout S] [-lean]
 //	    every case {"id","mods":[{name,file,text}],"xp":bool} is compiled K times, each
 //	    time in a CHILD process (stack cap, watchdog) with the parse trees supplied in a
-//	    different order; one result line per case.
+//	    different order; one result line per case (-lean: without the schema dump and
+//	    the phase events, for callers that only judge verdicts and compiled expressions).
 //	cc child        (internal) one request per line on stdin, one answer per line on stdout
 //	cc one file.json   compile the case in-process and print the result (replay aid)
 package main
@@ -281,6 +282,7 @@ func run(args []string) {
 	k := fs.Int("k", 4, "compilations per case")
 	nw := fs.Int("workers", 12, "parallel child processes")
 	to := fs.Int("timeout", 30, "seconds per compilation")
+	lean := fs.Bool("lean", false, "omit the schema dump and the phase events from the results")
 	fs.Parse(args)
 	seed, _ := strconv.ParseInt(os.Getenv("VERIF_SEED"), 10, 64)
 
@@ -327,10 +329,16 @@ func run(args []string) {
 						w = startWorker()
 						continue
 					}
+					if *lean {
+						res.Events = []ccm.Event{}
+					}
 					o.Runs = append(o.Runs, Run{Order: ord, Verdict: res.Verdict, Err: res.Err, Dump: hash(res.Dump),
 						Raw: hash(res.Raw), Events: res.Events})
 					if res.Verdict == "ok" && o.First == nil {
 						o.First = json.RawMessage(res.Dump)
+						if *lean {
+							o.First = json.RawMessage("{}")
+						}
 						o.Xps = res.Xps
 					}
 				}
